@@ -64,11 +64,19 @@ def make_cases(rng, n, tier):
         dict(GN=9, GD=10, PD=2, rewards=(-2, -1, 0, 1, 2)),
         dict(GN=1, GD=1, PD=2, rewards=(-2, -1, 0)),
         dict(GN=1, GD=1, PD=4, rewards=(-3, -1, 0)),
+        # probabilities in thirds: not exact in single precision (and not dyadic in double)
+        dict(GN=1, GD=2, PD=3, rewards=(-2, -1, 0, 1, 2), max_na=2),
+        dict(GN=3, GD=4, PD=3, rewards=(-2, -1, 0, 1, 2), max_na=2),
+        # step costs of several hundred: optimal values below log(smallest positive double) = -708
+        dict(GN=1, GD=2, PD=2, rewards=(-900, -500, -400, 0), max_na=2),
+        dict(GN=1, GD=1, PD=2, rewards=(-900, -500, -400, 0), max_na=2),
     ]
     cases = []
     while len(cases) < n:
         f = fams[len(cases) % len(fams)]
         n_na = rng.choice([1, 2, 2, 3, 3])
+        if f.get("max_na"):
+            n_na = min(n_na, f["max_na"])
         n_abs = rng.choice([0, 1, 1, 2]) if f["GN"] < f["GD"] else rng.choice([1, 1, 2])
         K = rng.choice([1, 2, 2, 3])
         m = gen.rand_mdp(rng, n_na=n_na, n_abs=n_abs, K=K, PD=f["PD"], GN=f["GN"], GD=f["GD"],
@@ -102,6 +110,48 @@ def make_cases(rng, n, tier):
         if not rep["explicit_list"] and not gen.ghost_closed(m):
             rep["explicit_list"] = True      # ghost successors outside the inferred list: C06's business
         # call history: the planner objects first plan on another MDP of the same shape (spec: Replan)
+        cases.append({"m": m, "rep": rep, "warm": rng.random() < 0.35})
+    return cases
+
+
+def lottery_tie_cases(rng, n):
+    """An exact tie between a lottery and a sure thing at discount 9/10: s0 chooses between a 50/50 move to x / y
+    (reward 0) and a sure move to the goal paying Rb; x and y move to the goal paying rx / ry, with
+    9 (rx + ry) / 20 = Rb.  The two action values are equal in exact arithmetic but are computed by different float
+    expressions (0.9 is not a binary fraction), so an implementation that compares them with == instead of its tie
+    tolerance sees them one ulp apart.  The exact policy is uniform over both actions at s0."""
+    cases = []
+    pairs = [(-1, -19), (-3, -17), (-7, -13), (-9, -11), (-13, -7), (-17, -3), (1, 19), (3, 17), (7, 13), (11, 9),
+             (-21, 1), (-23, 3), (-27, 7), (-33, 13), (-6, -14), (-2, -18)]
+    while len(cases) < n:
+        rx, ry = pairs[len(cases) % len(pairs)]
+        rb = 9 * (rx + ry) // 20
+        perm = list(range(4))
+        rng.shuffle(perm)
+        s0, x, y, g = perm
+        N, K, PD = 4, 2, 2
+        flip = rng.random() < 0.5              # which action index is the lottery
+        lot, sure = (1, 0) if flip else (0, 1)
+        P = [[[0] * N for _ in range(K)] for _ in range(N)]
+        R = [[[0] * N for _ in range(K)] for _ in range(N)]
+        avail = [[1, 1] for _ in range(N)]
+        P[s0][lot][x] = 1
+        P[s0][lot][y] = 1
+        P[s0][sure][g] = 2
+        R[s0][sure][g] = rb
+        for a in range(K):
+            P[x][a][g] = 2
+            R[x][a][g] = rx
+            P[y][a][g] = 2
+            R[y][a][g] = ry
+            P[g][a][g] = 2
+        if rng.random() < 0.5:
+            avail[x] = [1, 0]
+        m = {"N": N, "K": K, "PD": PD, "GN": 9, "GD": 10, "ID": 2, "abs": [1 if s == g else 0 for s in range(N)],
+             "avail": avail, "P": P, "R": R, "p0": [2 if s == s0 else 0 for s in range(N)],
+             "EN": 1, "ED": 1000000000, "CAP": 100000, "algs": ["oracle"], "PICAP": 100000, "undef": 0}
+        rep = dict(REPS[rng.randrange(len(REPS))])
+        rep["abs_int"] = rng.random() < 0.3
         cases.append({"m": m, "rep": rep, "warm": rng.random() < 0.35})
     return cases
 
@@ -640,6 +690,10 @@ def run(ctx):
     for j, c in enumerate(near):
         cases.insert(min(len(cases), j * (step + 1)), c)
     ctx.count("near_one_discount_cases", len(near))
+    lot = lottery_tie_cases(rng, 16 if ctx.tier == "quick" else 160)
+    for j, c in enumerate(lot):
+        cases.insert(min(len(cases), 3 + j * (step + 2)), c)
+    ctx.count("lottery_tie_cases", len(lot))
     ctx.count("cases_with_call_history", sum(1 for c in cases if c.get("warm")))
     chunk = 1000
     for k in range(0, len(cases), chunk):
